@@ -379,9 +379,13 @@ Fixpoint amount_checked (l : list Z) (acc : Z) : option Z :=
   | a :: r => let s := add64 acc a in if (s <? acc) || (s <? a) then None else amount_checked r s
   end.
 
-(* TransactionFees: unknown keysets contribute the zero value *)
+(* TransactionFees: unknown keysets contribute the zero value; the sum saturates at the largest uint, and the division by
+   1000 rounds up without adding to it *)
+(* uint addition that saturates (input_fee_ppk is a uint: the lower clamp is never reached) *)
+Definition sat_add64 (a b : Z) : Z := Z.max 0 (Z.min (a + b) (two64 - 1)).
 Definition tx_fees (mem_ks : list ksrow) (ins : list proof) : Z :=
-  (fold_left (fun acc p => add64 acc (match find_ks (p_ks p) mem_ks with Some k => k_fee k | None => 0 end)) ins 0 + 999) / 1000.
+  let s := fold_left (fun acc p => sat_add64 acc (match find_ks (p_ks p) mem_ks with Some k => k_fee k | None => 0 end)) ins 0 in
+  if s mod 1000 =? 0 then s / 1000 else s / 1000 + 1.
 
 Definition to_row (q : Z) (p : proof) : prow := mkProw (p_secret p) (p_amount p) (p_ks p) (p_wit p) q.
 
@@ -927,8 +931,13 @@ Definition load_mint (fee : Z) (rotate : bool) : prog (result unit) :=
 
 (* RetrieveMintInfo: is minting shown as disabled? *)
 Definition info_disabled (cfg : config) : prog (result bool) :=
-  perform b <- total_balance ;;
-  match b with
-  | Err e => fail e
-  | Ok balance => Ret (Ok ((0 <? c_max_balance cfg) && (c_max_balance cfg <=? balance)))
+  call sd <- GetSeed ;;          (* the mint's public key is derived from the stored seed on every request *)
+  match sd with
+  | RErr => fail EDb
+  | ROk _ =>
+    perform b <- total_balance ;;
+    match b with
+    | Err e => fail e
+    | Ok balance => Ret (Ok ((0 <? c_max_balance cfg) && (c_max_balance cfg <=? balance)))
+    end
   end.
